@@ -15,19 +15,9 @@ def make_case(ctx, i):
     # variable definitions over every input type of the schema, every wrapper pattern, with / without default
     items = [it for f in base["schemaFiles"] for it in f["items"]]
     tg = TG.TsGen(r)
-    tg.types = {d["name"]: d for d in items if d["k"] in ("scalar", "enum", "input") and not d.get("ext")}
-    # input objects may have been split into extensions: literals need all fields -> use merged view
-    merged = {}
-    for d in items:
-        if d["k"] == "input":
-            m = merged.setdefault(d["name"], copy.deepcopy(d))
-            if m is not d and d.get("ext"):
-                m["inputFields"] = m["inputFields"] + d["inputFields"]
-        elif d["k"] == "enum":
-            m = merged.setdefault(d["name"], copy.deepcopy(d))
-            if m is not d and d.get("ext"):
-                m["values"] = m["values"] + d["values"]
-    tg.types.update(merged)
+    # literals (default values) need the MERGED enums / input objects: extensions may precede their originals
+    from props import c01
+    tg.types = {d["name"]: d for d in c01.merged_defs(base["schemaFiles"]) if d["k"] in ("scalar", "enum", "input")}
     names = TG.BUILTIN + sorted(tg.types)
     nvars = 1 + r.below(4)
     vars_, args, argdefs = [], [], []
